@@ -187,7 +187,7 @@ def oracle_listing(R, root, mode, out, stats=None):
                 yield ("cycle_only_when_asked", "D31" if twover else None, "RuntimeError without checkCycles")
             elif not cyclic and not unsetup:
                 yield ("cycle_only_when_cyclic", "D31" if twover else None, "cycle reported on an acyclic closure")
-        elif out == "Recursion" and unsetup and cyclic:
+        elif out == "Recursion" and unsetup and (cyclic or any(t == u for u in expanded for t, _, _ in R.succ.get(u, []))):
             yield ("terminates", "D32", "recursion limit: unsetupRequired inside a dependency cycle")
         else:
             yield ("no_error", None, "listing raised %s" % out)
